@@ -1,5 +1,7 @@
 import BM.Gen.CssHandlers
 import BM.Gen.Shipped
+import BM.Gen.SanFacts
+import BM.Sanitize
 /-
   Source pins: the few pieces of /repo that are modelled by hand rather than regenerated
   (the four helpers of css/handlers.go and the closure in AllowDataURIImages) are pinned by
@@ -22,5 +24,45 @@ theorem css_helper_pins :
 /-- the closure `AllowDataURIImages` registers for the data scheme (hand model: `dataURIImagePolicy`) -/
 theorem data_uri_closure_pin :
     Gen.dataURIImageClosureHash = "b0dfd2cef2417df9960d9ed7879140f24274abf1fc7ebed888385747310b14eb" := by decide
+
+/-! ### the element tables of sanitize.go, by syntax -/
+
+def hrefEls : List Bytes := [b!"a", b!"area", b!"base", b!"link"]
+def citeEls : List Bytes := [b!"blockquote", b!"del", b!"ins", b!"q"]
+def srcEls : List Bytes :=
+  [b!"audio", b!"embed", b!"iframe", b!"img", b!"input", b!"script", b!"source", b!"track", b!"video"]
+def coEls : List Bytes := [b!"audio", b!"img", b!"link", b!"script", b!"video"]
+def voidEls : List Bytes :=
+  [b!"area", b!"base", b!"br", b!"col", b!"embed", b!"hr", b!"img", b!"input", b!"link", b!"meta", b!"param",
+   b!"source", b!"track", b!"wbr"]
+
+/-- every `switch` over element names in sanitize.go, as the extractor reads it from the source on
+    each run: the script/style gates of the token loop (three tag cases and the text case), the URL
+    pass (href / cite / src groups), the link-hardening and crossorigin blocks, `linkable`,
+    `isVoidElement`.  An element added to or dropped from any of these tables breaks this theorem. -/
+theorem sanitize_switches_pin :
+    Gen.sanitizeSwitches =
+      [("sanitize", "normaliseElementName(…)", [[b!"script"], [b!"style"]]),
+       ("sanitize", "normaliseElementName(…)", [[b!"script"], [b!"style"]]),
+       ("sanitize", "normaliseElementName(…)", [[b!"script"], [b!"style"]]),
+       ("sanitize", "mostRecentlyStartedToken", [[b!"script"], [b!"style"]]),
+       ("sanitizeAttrs", "elementName", [hrefEls, citeEls, srcEls]),
+       ("sanitizeAttrs", "elementName", [hrefEls]),
+       ("sanitizeAttrs", "elementName", [coEls]),
+       ("linkable", "elementName", [hrefEls, citeEls, srcEls]),
+       ("isVoidElement", "elementName", [voidEls])] := by decide
+
+/-- the model's predicates are exactly these tables -/
+theorem model_element_tables (el : Bytes) :
+    isHrefElement el = hrefEls.contains el ∧ isCiteElement el = citeEls.contains el ∧
+    isSrcElement el = srcEls.contains el ∧ isCrossOriginElement el = coEls.contains el ∧
+    isVoidElement el = voidEls.contains el ∧
+    linkable el = (hrefEls.contains el || citeEls.contains el || srcEls.contains el) ∧
+    isScriptOrStyle el = [b!"script", b!"style"].contains el := by
+  have hd : ∀ l : Bytes, decide (el = l) = (el == l) := fun l => by
+    cases h : el == l <;> simp_all
+  refine ⟨?_, ?_, ?_, ?_, ?_, ?_, ?_⟩ <;>
+    simp [isHrefElement, isCiteElement, isSrcElement, isCrossOriginElement, isVoidElement, linkable, isScriptOrStyle,
+      hrefEls, citeEls, srcEls, coEls, voidEls, Bool.or_assoc] <;> simp only [hd]
 
 end BM.Props
